@@ -723,6 +723,26 @@ def rule_chunks(ctx):
         for y in walk(fn["body"]):
             if y.get("k") == "LetStmt" and y.get("init") is not None and y["pat"].get("k") == "Bind" and any(z.get("k") == "MethodCall" and z["name"] in ("axis_chunks_iter", "axis_chunks_iter_mut", "exact_chunks", "axis_iter") for z in walk(y["init"])):
                 lists[y["pat"]["local"]] = y["pat"]["name"]
+        # a validation part is one block of n / k rows.  The *rest* of a `split_at(Axis(0), n / k)` has n - n / k rows: as a
+        # validation part (a two-fold shortcut that hands out both halves) it holds the left-over rows that are documented to
+        # be training-only whenever k does not divide n
+        tails_ = {}
+        for y in walk(fn["body"]):
+            if y.get("k") == "LetStmt" and y.get("init") is not None and y["pat"].get("k") == "Tuple" and len(y["pat"]["pats"]) == 2 and any(z.get("k") == "MethodCall" and z["name"] == "split_at" for z in [peel_refs(y["init"])]):
+                for b in pat_bindings(y["pat"]["pats"][1]):
+                    tails_[b["local"]] = b["name"]
+        if tails_:
+            res.instance("%s : validation parts of a direct split" % key)
+            bad_t = None
+            for y in walk(fn["body"]):
+                if y.get("k") == "Tup" and len(y["es"]) == 2:
+                    used = [z for z in walk(y["es"][1]) if z.get("k") == "Path" and z.get("local") in tails_]
+                    if used:
+                        bad_t = (y, tails_[used[0]["local"]])
+            if bad_t:
+                res.violate("%s : validation-is-the-rest-of-a-split:%s" % (key, bad_t[1]), "a (training, validation) pair takes its validation part from `%s`, the rest of a split at n / k: it has n - n / k rows, the left-over rows included, where every validation part is one block of n / k rows" % bad_t[1], fn_loc(fn, bad_t[0].get("ln")))
+            else:
+                res.ok()
         if not lists:
             res.instance("%s : block lists" % key)
             res.undecided("%s : block-lists" % key, "no list bound to the blocks of axis_chunks_iter (fail closed)", fn_loc(fn))
